@@ -10,6 +10,7 @@ import (
 
 	"github.com/miekg/dns"
 	"github.com/prometheus/client_golang/prometheus"
+	"github.com/semihalev/sdns/internal/dnsutil"
 	"github.com/semihalev/sdns/internal/metric"
 )
 
@@ -142,7 +143,13 @@ func HandleJSON(handle func(*dns.Msg) *dns.Msg) http.HandlerFunc {
 			writeHTTPError(w, http.StatusBadRequest)
 			return
 		}
-		name = dns.Fqdn(name)
+		// One name, one spelling: the text of a URL parameter is not what
+		// the unpacker would have produced for the same name.
+		name, ok := dnsutil.CanonicalPresentation(name)
+		if !ok {
+			writeHTTPError(w, http.StatusBadRequest)
+			return
+		}
 
 		qtype := ParseQTYPE(query.Get("type"))
 		if qtype == dns.TypeNone {
